@@ -56,11 +56,16 @@ Inductive stmt :=
   | CreateValues (s : src)  (* outf.createVariable(..., values=s): `result = values[...].view(subtype)`, no allocation *)
   | StoreObject (s : src)   (* outf.variables[k] = s *)
   | Inplace (s : src)       (* s -= x ; s += x ; s[cond] = x *)
-  | ReadOnly (s : src).     (* s is only read (np.interp, np.diff, repr, write to disk) *)
+  | ReadOnly (s : src)      (* s is only read (np.interp, np.diff, repr, write to disk) *)
+  (* dimension objects are a resource of their own (PseudoNetCDFDimension: _len, _unlimited; netCDF4.Dimension: bound to
+     the open dataset).  They live in the same id space as the buffers (harness: 500 + 20 * file + position). *)
+  | CopyDimension (d : nat)   (* outf.copyDimension(dv, key=dk) / outf.createDimension(name, n): a new dimension object *)
+  | StoreDimension (d : nat). (* outf.dimensions[dk] = dv: the input's own dimension object *)
 
 Definition stmt_effs (st : stmt) : list eff :=
   match st with
-  | CopyVariable _ | CreateAssign _ | ReadOnly _ => []
+  | CopyVariable _ | CreateAssign _ | ReadOnly _ | CopyDimension _ => []
+  | StoreDimension d => [EAlias d]
   | CreateValues s | StoreObject s => match base s with Some i => [EAlias i] | None => [] end
   | Inplace s => match base s with Some i => [EMutate i] | None => [] end
   end.
@@ -114,13 +119,18 @@ Definition prog_of (c : call) (v : nat -> src) (vars : list nat) : list stmt :=
   | OtherQuery _ => each ReadOnly
   end.
 
-Inductive op := Call (c : call) (mem : bool) (vars : list nat).
+(* every transformation builds the dimensions of its result with copyDimension / createDimension (_copywith(dimensions=True),
+   or its own loop over self.dimensions); queries build none *)
+Definition dims_prog (c : call) (dims : list nat) : list stmt :=
+  if is_query c then [] else map CopyDimension dims.
+
+Inductive op := Call (c : call) (mem : bool) (vars : list nat) (dims : list nat).
 
 Definition var_src (mem : bool) (i : nat) : src := if mem then SVar i else SDisk i.
 
 (* what the code does to its inputs = the effects of running the call's program *)
 Definition impl_effs (o : op) : list eff :=
-  match o with Call c mem vars => exec (prog_of c (var_src mem) vars) end.
+  match o with Call c mem vars dims => exec (dims_prog c dims ++ prog_of c (var_src mem) vars) end.
 
 Definition spec_effs (o : op) : list eff := [].
 
